@@ -248,6 +248,27 @@ func (e *KnowledgeBase) Clone(cloneTable *pkg.CloneTable) (*KnowledgeBase, error
 	return clone, nil
 }
 
+// Checkpoint remembers the rule entries and the working memory registrations of this knowledge base
+// and returns a function that puts them back. The rule builder uses it so that a resource which is
+// rejected leaves the knowledge base exactly as it was, instead of half-built rules and nodes that
+// no rule refers to (which made every later NewKnowledgeBaseInstance fail).
+func (e *KnowledgeBase) Checkpoint() (rollback func()) {
+	e.lock.Lock()
+	defer e.lock.Unlock()
+	entries := make(map[string]*RuleEntry, len(e.RuleEntries))
+	for k, v := range e.RuleEntries {
+		entries[k] = v
+	}
+	memory := e.WorkingMemory.snapshot()
+
+	return func() {
+		e.lock.Lock()
+		defer e.lock.Unlock()
+		e.RuleEntries = entries
+		e.WorkingMemory.restore(memory)
+	}
+}
+
 // AddRuleEntry add ruleentry into this knowledge base.
 // return an error if a rule entry with the same name already exist in this knowledge base.
 func (e *KnowledgeBase) AddRuleEntry(entry *RuleEntry) error {
